@@ -11,8 +11,7 @@ def _overlay(tmpdir):
     return {os.path.join(vlib.REPO, "stack/zz_verif_c12.go"): os.path.join(HARNESS_OV, "c12_stack_zz_verif.go.txt")}
 
 
-NDP_FINDINGS = (("C12-ndp-solicited-node-not-joined", "-ndpsn"), ("C12-ndp-multicast-target-answered", "-ndpmc"),
-                ("C12-ndp-lladdr-option-ignored", "-ndpopt"))
+NDP_FINDINGS = (("C12-ndp-solicited-node-not-joined", "-ndpsn"),)
 
 
 def _finding_flags():
@@ -31,8 +30,8 @@ SPEC = dict(
     search_args=lambda seed: ["-seed", seed, "-n", 1500, "-ndp", 600, "-hist", 200, "-overflow", 2, "-timers", 150] + _finding_flags(),
     shard=100,
     timeout=2400,
-    patterns={2: "C12-ndp-solicited-node-not-joined", 3: "C12-ndp-multicast-target-answered", 4: "C12-ndp-lladdr-option-ignored"},
-    rule="(a) CArp: one ARP packet injected into a fresh real stack (recording link endpoint declaring CapabilityResolutionRequired, 'arp' protocol address added, 1-4 IPv4 addresses): lattice of 12 op codes x 7 targets (own, second own, foreign, network, broadcast, zero, sender), one wrong header field at a time (hardware type, protocol type, hlen, plen) for requests and replies, truncation at every length 0..46 and first-view cut at every length 0..30, odd link-address lengths, no arp address; then seeded random packets (own / foreign / one-bit-off / broadcast / random targets and senders, op 1/2/other, 1/4 with a header mutation, trailing bytes, truncation, garbage, link-layer source differing from the sender hardware field); observed: frames handed to the link endpoint (Take) and Stack.GetLinkAddress for sender/target/own/foreign addresses. (b) CCache: histories on the real linkAddrCache (overlay-added constructor, ring of 512): explicit histories of 4-40 add / get (with and without resolver, 4 wakers, static key) / checkLinkRequest(any attempt) / removeWaker over 2-5 keys incl. the zero FullAddress, ageLimit 55 ms with sleeps across expirations; ring overflow (517-519 neighbours, pending resolution and ready entry evicted, overwrites, then look-ups of all); real resolver goroutines (timeout 30 ms, attempts 1-4, ageLimit 75 or 300 ms: replies arriving or not, extra waiters, removeWaker, second resolution). Every operation runs >= 5 ms away from every expiration and timer deadline, its measured time is the model's `now`; histories where the scheduler broke that are dropped and counted in the metadata. (c) CScen (thorough only): UDP write / TCP connect with the real constants to an on-link neighbour / through a gateway / own address / limited broadcast with 0-3 ARP requests unanswered: frames with times, final result. (d) CNdp: one IPv6 packet carrying a neighbour solicitation / advertisement injected (InjectFrom with a link-layer source) into a fresh real stack whose NIC has 1-5 IPv6 addresses, multicast groups only when added explicitly: lattice of solicitations over 8 targets (own, second own, foreign, unspecified, joined solicited-node group, all-nodes, all-ones, the sender) x source (unicast peer, unspecified) x destination (own unicast, solicited-node address of the target, all-nodes) x (no option, matching source link-layer option) x NIC (groups joined, unicast only), 8 malformed / foreign / contradicting option strings; truncation at every length with the payload-length field adjusted or not, first view cut at every length 40..end, 10 multi-view splits, 12 payload-length values; advertisements over 7 targets x up to 6 flag bytes x destination (own, all-nodes, foreign) x 5 option variants, unspecified / equal source; hop limit x code x checksum (valid, off by one) variations, version nibbles, other next headers and 13 other ICMPv6 types, link addresses of unusual length; then seeded random messages with 0-2 mutations (byte, bit, truncation, payload length), random view splits; observed: frames handed to the link endpoint and Stack.GetLinkAddress for source / target / destination / own / foreign addresses. CNdpReq: the stack's own solicitation: ipv6 LinkAddressRequest called directly (7 targets x 4 local addresses, 3 odd link addresses, address lengths 0..30, random), through Stack.GetLinkAddress on an empty cache (4) and through a UDP write to an unresolved IPv6 neighbour (2): the frame on the link endpoint with both link addresses. Inputs that exhibit a recorded C12-ndp-* finding are generated only once it is listed in known_findings.json (driver flags -ndpsn -ndpmc -ndpopt; the skipped count is in the metadata). Non-trivial = packet of full length delivered to the handler (CArp), a get returned an address or blocked (CCache), every CScen, an IPv6 packet that reaches the ICMPv6 handler (CNdp), a 16-byte target (CNdpReq); distinct = distinct case lines",
+    patterns={2: "C12-ndp-solicited-node-not-joined"},
+    rule="(a) CArp: one ARP packet injected into a fresh real stack (recording link endpoint declaring CapabilityResolutionRequired, 'arp' protocol address added, 1-4 IPv4 addresses): lattice of 12 op codes x 7 targets (own, second own, foreign, network, broadcast, zero, sender), one wrong header field at a time (hardware type, protocol type, hlen, plen) for requests and replies, truncation at every length 0..46 and first-view cut at every length 0..30, odd link-address lengths, no arp address; then seeded random packets (own / foreign / one-bit-off / broadcast / random targets and senders, op 1/2/other, 1/4 with a header mutation, trailing bytes, truncation, garbage, link-layer source differing from the sender hardware field); observed: frames handed to the link endpoint (Take) and Stack.GetLinkAddress for sender/target/own/foreign addresses. (b) CCache: histories on the real linkAddrCache (overlay-added constructor, ring of 512): explicit histories of 4-40 add / get (with and without resolver, 4 wakers, static key) / checkLinkRequest(any attempt) / removeWaker over 2-5 keys incl. the zero FullAddress, ageLimit 55 ms with sleeps across expirations; ring overflow (517-519 neighbours, pending resolution and ready entry evicted, overwrites, then look-ups of all); real resolver goroutines (timeout 30 ms, attempts 1-4, ageLimit 75 or 300 ms: replies arriving or not, extra waiters, removeWaker, second resolution). Every operation runs >= 5 ms away from every expiration and timer deadline, its measured time is the model's `now`; histories where the scheduler broke that are dropped and counted in the metadata. (c) CScen (thorough only): UDP write / TCP connect with the real constants to an on-link neighbour / through a gateway / own address / limited broadcast with 0-3 ARP requests unanswered: frames with times, final result. (d) CNdp: one IPv6 packet carrying a neighbour solicitation / advertisement injected (InjectFrom with a link-layer source) into a fresh real stack whose NIC has 1-5 IPv6 addresses, multicast groups only when added explicitly: lattice of solicitations over 8 targets (own, second own, foreign, unspecified, joined solicited-node group, all-nodes, all-ones, the sender) x source (unicast peer, unspecified) x destination (own unicast, solicited-node address of the target, all-nodes) x (no option, matching source link-layer option) x NIC (groups joined, unicast only), 8 malformed / foreign / contradicting option strings; truncation at every length with the payload-length field adjusted or not, first view cut at every length 40..end, 10 multi-view splits, 12 payload-length values; advertisements over 7 targets x up to 6 flag bytes x destination (own, all-nodes, foreign) x 5 option variants, unspecified / equal source; hop limit x code x checksum (valid, off by one) variations, version nibbles, other next headers and 13 other ICMPv6 types, link addresses of unusual length; then seeded random messages with 0-2 mutations (byte, bit, truncation, payload length), random view splits; observed: frames handed to the link endpoint and Stack.GetLinkAddress for source / target / destination / own / foreign addresses. CNdpReq: the stack's own solicitation: ipv6 LinkAddressRequest called directly (7 targets x 4 local addresses, 3 odd link addresses, address lengths 0..30, random), through Stack.GetLinkAddress on an empty cache (4) and through a UDP write to an unresolved IPv6 neighbour (2): the frame on the link endpoint with both link addresses. Solicitations for an own address sent to a solicited-node group the NIC did not join (finding C12-ndp-solicited-node-not-joined) are generated only once the finding is listed in known_findings.json (driver flag -ndpsn; the skipped count is in the metadata); joined multicast targets and link-layer address options that contradict the frame's link source are ordinary cases. Non-trivial = packet of full length delivered to the handler (CArp), a get returned an address or blocked (CCache), every CScen, an IPv6 packet that reaches the ICMPv6 handler (CNdp), a 16-byte target (CNdpReq); distinct = distinct case lines",
     trusted_base=[KERNEL, CORR_TB,
                   "Print Assumptions: every C12 theorem is closed under the global context (no axioms)",
                   "modelled, not verified: protocol/network/ipv6/icmp.go neighbour solicitation / advertisement branches of handleICMP, LinkAddressRequest, ResolveStaticAddress, header/ipv6.go SolicitedNodeAddr (Model/Ndp.v) on top of C13's Model/Echo.v (nic6_deliver = NIC.DeliverNetworkPacket + ipv6 HandlePacket, icmp6Checksum, ip6_write); tied to the code by the differential runs (whole emitted frames and cache look-ups compared)",
